@@ -1,7 +1,7 @@
 (* Proofs/GenQFrameOpsProofs.v — tie T1 for the frame-level operations of qframe.go.
    Gen/GenQFrameOps.v is the Go text of qframe.go (withErr, withIndex, Contains, Len, ColumnNames, checkColumns,
    Select, Drop, Slice, setColumn, Copy, constCount, createColumn, New, apply0, apply1, apply2, Apply, WithRowNums,
-   FilteredApply) and of internal/strings/set.go rendered statement by statement by tools/qf2coq/qframeops.go.  Here
+   FilteredApply, Sort, Equals, Eval, ColumnTypes, ColumnTypeMap) and of internal/strings/set.go rendered statement by statement by tools/qf2coq/qframeops.go.  Here
    every generated definition is proved equal, through the representation relation [rep], to the hand-written model
    function of Model/Frame.v / Model/Ops.v.
 
@@ -20,7 +20,7 @@
    order of a map open (the copy loop of setColumn, the three ranges of New) the generated function takes the order
    as an argument [ord : forall V, gq_map V -> gq_map V] and the theorem holds for every [ord] answering a
    permutation.  The abstraction boundaries (column constructors and methods, NewConfig, sort.Strings, Filter) are
-   stated at the head of the sections NewRep and ApplyRep. *)
+   stated at the head of the sections NewRep, ApplyRep, SortRep, EqualsRep and EvalRep. *)
 From Coq Require Import Permutation.
 From QF Require Import Base.Prelude Gen.GenFuncs Gen.GenQFrameOps.
 From QF Require Import Model.Frame Model.Filter Model.Ops Proofs.GenFuncsProofs.
@@ -2021,3 +2021,386 @@ Qed.
 
 Lemma m_filter_ok {E : Type} (e : E) mt : filter_ok mt (fun q c => m_lift e (frame_filter mt (absq q) c)).
 Proof. intros q f c Hrep. rewrite (rep_absq q f Hrep). apply m_lift_sim. Qed.
+
+(* ================================================================== Sort ================================= *)
+
+(* The abstraction boundary of Sort: Column.Comparable (cmpf) and the sorter qfsort.New(ix, columns).Sort() (srt).
+   A Comparable is the pair (the column, its Compare on two row ids); [comparable_ok cmpf]: for equalNull = false
+   — the literal Sort passes — cmpf answers the model's col_comparable.  The sorter is internal/sort, translated in
+   Gen/GenSorter.v (gs_Sort over Less = less_keys of the Compare functions, tied by the T1_sorter theorems); the model makes the
+   range check of the rows a Compare reads once, before sorting ([rows_in_range], an over-approximation on frames
+   that are not well formed), so the theorem takes it as a premise (it follows from wf_frame: T1_qframe_Sort_C03). *)
+From QF Require Import Gen.GenSorter Model.Sort Model.SortFrame Proofs.GenSorterProofs.
+
+Section SortRep.
+Context {E : Type}.
+Variable col_nil : coldata.
+Variable new_error : bytes -> bytes -> E.
+Variable unknownCol : bytes -> bytes.
+
+Notation gframe := (gq_QFrame nat E coldata).
+Notation gcmp := (coldata * (nat -> nat -> cmpres))%type.
+
+Definition comparable_ok (cmpf : coldata -> bool -> bool -> bool -> outcome gcmp) : Prop :=
+  forall c reverse nullLast, cmpf c reverse false nullLast = Ok (c, col_comparable c reverse nullLast).
+
+Definition gorder_of (o : order) : gq_Order := gq_mk_Order (o_column o) (o_reverse o) (o_nulllast o).
+
+Variable cmpf : coldata -> bool -> bool -> bool -> outcome gcmp.
+Variable srt : list nat -> list gcmp -> outcome (list nat).
+Variable Hcmp : comparable_ok cmpf.
+
+Notation g_Sort := (gq_QFrame_Sort col_nil new_error unknownCol cmpf srt).
+
+Lemma gq_Sort_loop (q : gframe) f : rep q f -> forall orders acc,
+  match comparables f orders with
+  | Some cs =>
+      gq_QFrame_Sort_loop1 col_nil new_error unknownCol cmpf srt (map gorder_of orders) q acc
+      = gq_QFrame_Sort_loop1 col_nil new_error unknownCol cmpf srt [] q (acc ++ cs)
+  | None => exists q', gq_QFrame_Sort_loop1 col_nil new_error unknownCol cmpf srt (map gorder_of orders) q acc = Ok q'
+                       /\ rep q' (with_err f)
+  end.
+Proof.
+  intro Hrep. induction orders as [|o orders IH]; intro acc; cbn [comparables map].
+  - rewrite app_nil_r. reflexivity.
+  - cbn [gq_QFrame_Sort_loop1 gorder_of gq_Order_Column gq_Order_Reverse gq_Order_NullLast].
+    rewrite (rep_mhas q f (o_column o) Hrep). unfold contains, lookup_col.
+    destruct (lookup f (o_column o)) as [[p c]|] eqn:Elk; cbn [negb option_map snd].
+    + rewrite (rep_mget_or q f (o_column o) _ p c Hrep Elk). cbn [gq_namedColumn_Column].
+      rewrite Hcmp. cbn [obind]. specialize (IH (acc ++ [(c, col_comparable c (o_reverse o) (o_nulllast o))])).
+      destruct (comparables f orders) as [cs|].
+      * rewrite IH, <- app_assoc. reflexivity.
+      * exact IH.
+    + destruct (gq_withErr_rep q f (new_error (bs 4 0x536f7274) (unknownCol (o_column o))) Hrep) as (q' & Hq & Hr).
+      rewrite Hq. exists q'. split; [reflexivity|exact Hr].
+Qed.
+
+(* premise: on this frame the sorter answers what the model's sorter answers behind its range check *)
+Lemma gq_Sort_sim (q : gframe) f orders : rep q f ->
+  (forall cs, comparables f orders = Some cs ->
+     srt (ix f) cs = if rows_in_range (ix f) (map fst cs) then sort_ids (less_keys (map snd cs)) (ix f) else Panic) ->
+  match sort_frame f orders with
+  | Ok f' => exists q', g_Sort q (map gorder_of orders) = Ok q' /\ rep q' f'
+  | Fail => g_Sort q (map gorder_of orders) = Fail
+  | Panic => g_Sort q (map gorder_of orders) = Panic
+  end.
+Proof.
+  intros Hrep Hsrt. pose proof Hrep as (Hc & Hi & He & Hn & Hm).
+  unfold gq_QFrame_Sort, sort_frame. rewrite He.
+  destruct (ferr f) eqn:Ef; [exists q; split; [reflexivity|exact Hrep]|]. cbn [negb].
+  destruct orders as [|o orders]; [exists q; split; [reflexivity|exact Hrep]|].
+  rewrite map_length. replace (Z.of_nat (length (o :: orders)) =? 0) with false by (cbn [length]; lia).
+  unfold gq_make0. replace (Z.of_nat (length (o :: orders)) <? 0) with false by lia. cbn [obind].
+  pose proof (gq_Sort_loop q f Hrep (o :: orders) []) as Hl.
+  destruct (comparables f (o :: orders)) as [cs|] eqn:Ecs.
+  - rewrite Hl. cbn [app gq_QFrame_Sort_loop1]. unfold gq_QFrame_withIndex. cbn [obind gq_QFrame_index].
+    rewrite Hi, (Hsrt cs eq_refl).
+    destruct (rows_in_range (ix f) (map fst cs)); [|reflexivity].
+    destruct (sort_ids (less_keys (map snd cs)) (ix f)) as [sorted| |]; cbn [obind]; [|reflexivity|reflexivity].
+    eexists. split; [reflexivity|].
+    unfold rep, gq_QFrame_set_index, with_ix.
+    cbn [gq_QFrame_columns gq_QFrame_index gq_QFrame_Err gq_QFrame_columnsByName cols ix ferr].
+    repeat split; try assumption; try reflexivity. rewrite Ef. exact He.
+  - exact Hl.
+Qed.
+
+End SortRep.
+
+(* the sorter of Gen/GenSorter.v: Less = less_keys over the Compare functions *)
+Definition m_sorter (fuel : nat) (i : list nat) (cs : list (coldata * (nat -> nat -> cmpres))) : outcome (list nat) :=
+  gs_Sort (less_keys (map snd cs)) fuel i.
+
+(* Column.Comparable for equalNull = false (Sort); equalNull = true is the use of Distinct / GroupBy, not modelled here *)
+Definition m_col_Comparable (c : coldata) (reverse equalNull nullLast : bool) : outcome (coldata * (nat -> nat -> cmpres)) :=
+  if equalNull then Panic else Ok (c, col_comparable c reverse nullLast).
+
+Lemma m_col_Comparable_ok : comparable_ok m_col_Comparable.
+Proof. intros c r nl. reflexivity. Qed.
+
+(* with the translated sorter and enough fuel the premise of gq_Sort_sim is the model's range check *)
+Lemma gq_Sort_translated {E : Type} (col_nil : coldata) (new_error : bytes -> bytes -> E) (unknownCol : bytes -> bytes)
+  (fuel : nat) (q : gq_QFrame nat E coldata) f orders :
+  rep q f -> (length (ix f) + 6 <= fuel)%nat -> Z.of_nat (length (ix f)) < 9223372036854775808 ->
+  (forall cs, comparables f orders = Some cs -> rows_in_range (ix f) (map fst cs) = true) ->
+  match sort_frame f orders with
+  | Ok f' => exists q', gq_QFrame_Sort col_nil new_error unknownCol m_col_Comparable (m_sorter fuel) q (map gorder_of orders) = Ok q'
+                        /\ rep q' f'
+  | Fail => gq_QFrame_Sort col_nil new_error unknownCol m_col_Comparable (m_sorter fuel) q (map gorder_of orders) = Fail
+  | Panic => gq_QFrame_Sort col_nil new_error unknownCol m_col_Comparable (m_sorter fuel) q (map gorder_of orders) = Panic
+  end.
+Proof.
+  intros Hrep Hfuel Hlen Hrange.
+  apply (gq_Sort_sim col_nil new_error unknownCol m_col_Comparable (m_sorter fuel) m_col_Comparable_ok q f orders Hrep).
+  intros cs Hcs. rewrite (Hrange cs Hcs). unfold m_sorter. apply gs_Sort_eq; assumption.
+Qed.
+
+(* ================================================================== Equals ================================ *)
+
+(* The abstraction boundary of Equals: Column.Equals (ceq), instantiated with the model's col_equals.  The reason
+   text (a Sprintf) is an arbitrary function of its format string; the model keeps the boolean. *)
+Section EqualsRep.
+Context {E : Type}.
+Variable sprintf : bytes -> bytes.
+Notation gframe := (gq_QFrame nat E coldata).
+
+(* the column loop of Ops.equals (an anonymous fix there) *)
+Fixpoint eq_go (f g : frame) (a b : list (bytes * coldata)) : outcome bool :=
+  match a, b with
+  | (n, c) :: a', (m, o) :: b' =>
+      if negb (bytes_eqb n m) then Ok false
+      else do e <- col_equals c (ix f) o (ix g); if e then eq_go f g a' b' else Ok false
+  | _, _ => Ok true
+  end.
+
+Lemma equals_unfold f g :
+  equals f g = if negb (Nat.eqb (length (ix f)) (length (ix g))) then Ok false
+               else if negb (Nat.eqb (length (cols f)) (length (cols g))) then Ok false
+               else eq_go f g (cols f) (cols g).
+Proof.
+  unfold equals. destruct (negb (Nat.eqb (length (ix f)) (length (ix g)))); [reflexivity|].
+  destruct (negb (Nat.eqb (length (cols f)) (length (cols g)))); [reflexivity|].
+  generalize (cols f) (cols g). induction l as [|[n c] a IH]; intros [|[m o] b]; cbn [eq_go]; try reflexivity.
+  destruct (negb (bytes_eqb n m)); [reflexivity|]. destruct (col_equals c (ix f) o (ix g)) as [e| |]; cbn [obind]; try reflexivity.
+  destruct e; [apply IH|reflexivity].
+Qed.
+
+Notation g_Equals := (gq_QFrame_Equals (E := E) sprintf (fun c i o oi => col_equals c i o oi)).
+
+Lemma Z_nat_eqb a b : (Z.of_nat a =? Z.of_nat b) = Nat.eqb a b.
+Proof.
+  destruct (Nat.eqb a b) eqn:En.
+  - apply Nat.eqb_eq in En. subst. apply Z.eqb_refl.
+  - apply Nat.eqb_neq in En. apply Z.eqb_neq. lia.
+Qed.
+
+Lemma gq_Equals_loop (q q2 : gframe) f g : gq_QFrame_index q = ix f -> gq_QFrame_index q2 = ix g ->
+  forall a b pre p p2, length a = length b -> gq_QFrame_columns q2 = pre ++ ncols_from p2 b ->
+  match eq_go f g a b with
+  | Ok r => exists reason, gq_QFrame_Equals_loop1 sprintf (fun c i o oi => col_equals c i o oi) (ncols_from p a) (Z.of_nat (length pre)) q q2
+                           = Ok (r, reason)
+  | Fail => gq_QFrame_Equals_loop1 sprintf (fun c i o oi => col_equals c i o oi) (ncols_from p a) (Z.of_nat (length pre)) q q2 = Fail
+  | Panic => gq_QFrame_Equals_loop1 sprintf (fun c i o oi => col_equals c i o oi) (ncols_from p a) (Z.of_nat (length pre)) q q2 = Panic
+  end.
+Proof.
+  intros Hi Hi2. induction a as [|[n c] a IH]; intros b pre p p2 Hlen Hcols.
+  - destruct b; [|discriminate]. cbn [eq_go ncols_from gq_QFrame_Equals_loop1]. eexists. reflexivity.
+  - destruct b as [|[m o] b]; [discriminate|]. cbn [eq_go ncols_from gq_QFrame_Equals_loop1].
+    assert (Hidx : gq_index (gq_QFrame_columns q2) (Z.of_nat (length pre)) = Ok (gq_mk_namedColumn o m (Z.of_nat p2))).
+    { rewrite Hcols. cbn [ncols_from]. unfold gq_index. destruct (Z.of_nat (length pre) <? 0) eqn:E0; [lia|]. rewrite Nat2Z.id.
+      unfold idx. rewrite nth_error_app2 by lia. rewrite Nat.sub_diag. reflexivity. }
+    rewrite Hidx. cbn [obind gq_namedColumn_name gq_namedColumn_Column].
+    destruct (negb (bytes_eqb n m)); [eexists; reflexivity|].
+    rewrite Hi, Hi2. destruct (col_equals c (ix f) o (ix g)) as [e| |]; cbn [obind]; try reflexivity.
+    destruct e; cbn [negb]; [|eexists; reflexivity].
+    replace (Z.of_nat (length pre) + 1) with (Z.of_nat (length (pre ++ [gq_mk_namedColumn o m (Z.of_nat p2) : gq_namedColumn coldata])))
+      by (rewrite app_length; cbn [length]; lia).
+    apply (IH b (pre ++ [gq_mk_namedColumn o m (Z.of_nat p2)]) (S p) (S p2)).
+    + cbn [length] in Hlen. lia.
+    + rewrite Hcols, <- app_assoc. reflexivity.
+Qed.
+
+(* Equals = Ops.equals: the same boolean (with some reason text), the same panics *)
+Lemma gq_Equals_eq (q q2 : gframe) f g : rep q f -> rep q2 g ->
+  match equals f g with
+  | Ok r => exists reason, g_Equals q q2 = Ok (r, reason)
+  | Fail => g_Equals q q2 = Fail
+  | Panic => g_Equals q q2 = Panic
+  end.
+Proof.
+  intros (Hc & Hi & _) (Hc2 & Hi2 & _). rewrite equals_unfold. unfold gq_QFrame_Equals.
+  rewrite Hi, Hi2, Z_nat_eqb. destruct (negb (Nat.eqb (length (ix f)) (length (ix g)))); [eexists; reflexivity|].
+  rewrite Hc, Hc2, !ncols_from_length, Z_nat_eqb.
+  destruct (Nat.eqb (length (cols f)) (length (cols g))) eqn:El; cbn [negb]; [|eexists; reflexivity].
+  apply Nat.eqb_eq in El. rewrite <- Hc.
+  pose proof (gq_Equals_loop q q2 f g Hi Hi2 (cols f) (cols g) [] 0%nat 0%nat El Hc2) as H.
+  cbn [length] in H. change (Z.of_nat 0) with 0 in H. rewrite Hc. exact H.
+Qed.
+
+End EqualsRep.
+
+(* ================================================================== Eval ================================== *)
+
+(* The abstraction boundary of Eval: eval.NewConfig (ncf: answers the Config whose Ctx is the context cx) and
+   expr.execute (exec).  [execute_ok exec x e]: on every represented frame exec x answers what the model's execute
+   answers for the expression e — the frame in the representation relation, the same result column name.  With
+   exec built from the GENERATED execute of Gen/GenExprTree.v ([exec_translated]) that premise is T1_expr_execute, so
+   [gq_Eval_translated] speaks about translated text from the wrapper down to the instructions. *)
+From QF Require Import Model.Eval.
+From QF Require Proofs.GenExprTreeProofs.
+
+Section EvalRep.
+Context {E ECF EXPR : Type}.
+Variable col_nil : coldata.
+Variable new_error : bytes -> bytes -> E.
+Variable propagate : bytes -> option E -> E.
+Variable checkname_error : bytes -> E.
+Variable unknownCol : bytes -> bytes.
+Variable ord : forall V : Type, gq_map V -> gq_map V.
+Variable Hord : perm_order ord.
+Variable ut : upper_table.
+Variable cx : ctx.
+Notation gframe := (gq_QFrame nat E coldata).
+Variable ncf : list ECF -> outcome (gq_EvalConfig ctx).
+Variable exec : EXPR -> gframe -> ctx -> outcome (gframe * bytes).
+
+Definition execute_ok (x : EXPR) (e : expr) : Prop :=
+  forall (q : gframe) f, rep q f ->
+  match execute ut cx e f with
+  | Ok (f', n) => exists q', exec x q cx = Ok (q', n) /\ rep q' f'
+  | Fail => exec x q cx = Fail
+  | Panic => exec x q cx = Panic
+  end.
+
+Notation g_Eval := (gq_QFrame_Eval col_nil new_error propagate checkname_error unknownCol ord ncf exec).
+
+Lemma gq_Eval_sim (q : gframe) f dst x e ff : ncf ff = Ok (gq_mk_EvalConfig cx) -> execute_ok x e -> rep q f ->
+  match eval ut cx f dst e with
+  | Ok f' => exists q', g_Eval q dst x ff = Ok q' /\ rep q' f'
+  | Fail => g_Eval q dst x ff = Fail
+  | Panic => g_Eval q dst x ff = Panic
+  end.
+Proof.
+  intros Hncf Hexec Hrep. pose proof Hrep as (Hc & Hi & He & Hn & Hm).
+  unfold gq_QFrame_Eval, eval. rewrite He.
+  destruct (ferr f) eqn:Ef; [exists q; split; [reflexivity|exact Hrep]|]. cbn [negb].
+  rewrite Hncf. cbn [obind gq_EvalConfig_Ctx].
+  pose proof (Hexec q f Hrep) as Hx. destruct (execute ut cx e f) as [[r name]| |]; cbn [obind].
+  2:{ rewrite Hx. reflexivity. }
+  2:{ rewrite Hx. reflexivity. }
+  destruct Hx as (q1 & Hq1 & Hrep1). rewrite Hq1. cbn [obind].
+  destruct (gq_Copy_rep col_nil new_error propagate checkname_error unknownCol ord q1 r dst name Hord Hrep1) as (q2 & Hq2 & Hrep2).
+  rewrite Hq2. cbn [obind]. rewrite (gq_Contains_eq q f name Hrep).
+  destruct (negb (bytes_eqb name dst)); cbn [obind andb].
+  - destruct (contains f name); cbn [negb obind].
+    + exists q2. split; [reflexivity|exact Hrep2].
+    + destruct (gq_Drop_rep col_nil new_error propagate checkname_error unknownCol q2 (copy r dst name) [name] Hrep2) as (q3 & Hq3 & Hrep3).
+      rewrite Hq3. cbn [obind]. exists q3. split; [reflexivity|exact Hrep3].
+  - exists q2. split; [reflexivity|exact Hrep2].
+Qed.
+
+End EvalRep.
+
+(* expr.execute built from the translated execute (Gen/GenExprTree.v instantiated on the model's frames, as in
+   Properties/T1Expr.v): run on the frame a Go frame represents, the result carried back *)
+Definition exec_translated {E : Type} (e0 : E) (ut : upper_table) (fuel : nat)
+  (x : GenExprTreeProofs.MExpression) (q : gq_QFrame nat E coldata) (cx : ctx) : outcome (gq_QFrame nat E coldata * bytes) :=
+  match GenExprTreeProofs.g_execute ut fuel x (absq q) cx with
+  | Ok (f', n) => Ok (embed e0 f', n)
+  | Fail => Fail
+  | Panic => Panic
+  end.
+
+Lemma exec_translated_ok {E : Type} (e0 : E) ut cx fuel (x : GenExprTreeProofs.MExpression) :
+  GenExprTreeProofs.wf_expr x = true -> (GenExprTreeProofs.fuel_need x <= fuel)%nat ->
+  execute_ok ut cx (exec_translated e0 ut fuel) x (GenExprTreeProofs.abs_expr x).
+Proof.
+  intros Hwf Hfuel q f Hrep. unfold exec_translated.
+  rewrite (rep_absq q f Hrep), (GenExprTreeProofs.g_execute_eq ut cx x fuel f Hwf Hfuel).
+  destruct (execute ut cx (GenExprTreeProofs.abs_expr x) f) as [[f' n]| |]; [|reflexivity|reflexivity].
+  eexists. split; [reflexivity|]. apply (embed_rep (fun _ _ => e0) (fun _ _ => e0) (fun _ => e0) (fun b => b)).
+Qed.
+
+(* ================================================================== C03_frame_sort on the translated Sort ===== *)
+
+From QF Require Proofs.SortFrameProofs.
+
+Lemma sort_frame_ok_range f orders g : ferr f = false -> sort_frame f orders = Ok g ->
+  forall cs, comparables f orders = Some cs -> rows_in_range (ix f) (map fst cs) = true.
+Proof.
+  intros Hf Hs cs Hcs. unfold sort_frame in Hs. rewrite Hf in Hs. destruct orders as [|o orders].
+  - cbn [comparables] in Hcs. inversion Hcs. unfold rows_in_range. cbn [map forallb]. apply orb_true_r.
+  - rewrite Hcs in Hs. destruct (rows_in_range (ix f) (map fst cs)); [reflexivity|discriminate].
+Qed.
+
+Theorem gq_Sort_C03 {E : Type} (col_nil : coldata) (new_error : bytes -> bytes -> E) (unknownCol : bytes -> bytes)
+  (fuel : nat) (q : gq_QFrame nat E coldata) (f : frame) (orders : list order) :
+  wf_frame f = true -> ferr f = false -> SortFrameProofs.orders_known f orders = true -> rep q f ->
+  (length (ix f) + 6 <= fuel)%nat -> Z.of_nat (length (ix f)) < 9223372036854775808 ->
+  exists q' g t t',
+    gq_QFrame_Sort col_nil new_error unknownCol m_col_Comparable (m_sorter fuel) q (map gorder_of orders) = Ok q' /\ rep q' g /\
+    cols g = cols f /\ ferr g = false /\ Permutation (ix g) (ix f) /\
+    abs f = Ok t /\ abs g = Ok t' /\ tnames t' = tnames t /\ ttypes t' = ttypes t /\
+    Permutation (trows t') (trows t) /\
+    (forall i a, nth_error (ix g) i = Some a ->
+       exists row, row_at f a = Ok row /\ nth_error (trows t') i = Some row) /\
+    (forall i j a b, (i < j)%nat -> nth_error (ix g) i = Some a -> nth_error (ix g) j = Some b ->
+       SortFrameProofs.row_lt f orders b a = Ok false).
+Proof.
+  intros Hwf Hf Hk Hrep Hfuel Hlen.
+  destruct (SortFrameProofs.frame_sort_full f orders Hwf Hf Hk) as (g & t & t' & Hs & Hrest).
+  pose proof (gq_Sort_translated col_nil new_error unknownCol fuel q f orders Hrep Hfuel Hlen
+                (sort_frame_ok_range f orders g Hf Hs)) as Hg.
+  rewrite Hs in Hg. destruct Hg as (q' & Hq & Hrep'). exists q', g, t, t'. split; [exact Hq|]. split; [exact Hrep'|exact Hrest].
+Qed.
+
+(* ================================================================== ColumnTypes, ColumnTypeMap ============== *)
+
+Section TypesRep.
+Context {E : Type}.
+Notation gframe := (gq_QFrame nat E coldata).
+Notation gncol := (gq_namedColumn coldata).
+Definition m_col_DataType (c : coldata) : outcome ctype := Ok (col_type c).
+
+Lemma gq_ColumnTypes_loop : forall (l : list gncol) (pre : list ctype),
+  gq_QFrame_ColumnTypes_loop1 m_col_DataType l (Z.of_nat (length pre)) (pre ++ repeat TInt (length l))
+  = Ok (pre ++ map (fun nc => col_type (gq_namedColumn_Column nc)) l).
+Proof.
+  induction l as [|nc l IH]; intro pre; cbn [gq_QFrame_ColumnTypes_loop1 length map].
+  - cbn [repeat]. reflexivity.
+  - unfold m_col_DataType at 1. cbn [obind]. rewrite gq_update_fill. cbn [obind].
+    replace (Z.of_nat (length pre) + 1) with (Z.of_nat (length (pre ++ [col_type (gq_namedColumn_Column nc)])))
+      by (rewrite app_length; cbn [length]; lia).
+    rewrite IH, <- app_assoc. reflexivity.
+Qed.
+
+(* ColumnTypes: the types of the columns in slice order (the ttypes of the logical table) *)
+Lemma gq_ColumnTypes_eq (q : gframe) f : rep q f ->
+  gq_QFrame_ColumnTypes TInt m_col_DataType q = Ok (map (fun nc => col_type (snd nc)) (cols f)).
+Proof.
+  intros (Hc & _). unfold gq_QFrame_ColumnTypes. rewrite gq_make_nat. cbn [obind].
+  pose proof (gq_ColumnTypes_loop (gq_QFrame_columns q) []) as H. cbn [length app] in H.
+  change (Z.of_nat 0) with 0 in H. rewrite H. cbn [obind]. rewrite Hc. f_equal.
+  generalize (cols f) 0%nat. induction l as [|[n c] r IH]; intro pos; cbn [ncols_from map gq_namedColumn_Column snd]; [reflexivity|].
+  rewrite IH. reflexivity.
+Qed.
+
+Lemma gq_ColumnTypeMap_loop : forall (l : list (bytes * gncol)) (acc : gq_map ctype),
+  exists M, gq_QFrame_ColumnTypeMap_loop1 m_col_DataType l acc = Ok M
+            /\ forall n, gq_mget M n = match gq_mget (rev l) n with
+                                       | Some nc => Some (col_type (gq_namedColumn_Column nc))
+                                       | None => gq_mget acc n
+                                       end.
+Proof.
+  induction l as [|[k v] l IH]; intro acc; cbn [gq_QFrame_ColumnTypeMap_loop1 rev].
+  - exists acc. split; [reflexivity|]. intro n. reflexivity.
+  - unfold m_col_DataType at 1. cbn [obind].
+    destruct (IH (gq_mset acc k (col_type (gq_namedColumn_Column v)))) as (M & Hrun & HM).
+    exists M. split; [exact Hrun|]. intro n. rewrite HM, gq_mget_mset.
+    assert (Happ : gq_mget (rev l ++ [(k, v)]) n = match gq_mget (rev l) n with Some x => Some x | None => if bytes_eqb k n then Some v else None end).
+    { generalize (rev l). intro g0. induction g0 as [|[k' v'] r IHr]; cbn [app gq_mget]; [reflexivity|].
+      destruct (bytes_eqb k' n); [reflexivity|exact IHr]. }
+    rewrite Happ. destruct (gq_mget (rev l) n); [reflexivity|]. destruct (bytes_eqb k n); reflexivity.
+Qed.
+
+(* ColumnTypeMap: a name resolves to the type of the column the by-name map points to, for every iteration order *)
+Lemma gq_ColumnTypeMap_eq ord (q : gframe) f : perm_order ord -> rep q f ->
+  exists M, gq_QFrame_ColumnTypeMap m_col_DataType ord q = Ok M
+            /\ forall n, gq_mget M n = option_map col_type (lookup_col f n).
+Proof.
+  intros Hord (Hc & Hi & He & Hn & Hm). unfold gq_QFrame_ColumnTypeMap.
+  destruct (gq_ColumnTypeMap_loop (ord _ (gq_QFrame_columnsByName q)) []) as (M & Hrun & HM).
+  rewrite Hrun. cbn [obind]. exists M. split; [reflexivity|]. intro n. rewrite HM.
+  assert (Hp : Permutation (rev (ord _ (gq_QFrame_columnsByName q))) (gq_QFrame_columnsByName q)).
+  { eapply Permutation_trans; [apply Permutation_sym, Permutation_rev|apply Hord]. }
+  rewrite (gq_mget_perm _ _ n Hn Hp), Hm. unfold lookup_col. destruct (lookup f n) as [[p c]|]; reflexivity.
+Qed.
+
+End TypesRep.
+
+(* the generated functions of this part with the boundary of the model *)
+Definition m_Sort {E : Type} (col_nil : coldata) (new_error : bytes -> bytes -> E) (unknownCol : bytes -> bytes) (fuel : nat)
+  : gq_QFrame nat E coldata -> list gq_Order -> outcome (gq_QFrame nat E coldata) :=
+  gq_QFrame_Sort col_nil new_error unknownCol m_col_Comparable (m_sorter fuel).
+Definition m_Equals {E : Type} (sprintf : bytes -> bytes)
+  : gq_QFrame nat E coldata -> gq_QFrame nat E coldata -> outcome (bool * bytes) :=
+  gq_QFrame_Equals sprintf (fun c i o oi => col_equals c i o oi).
